@@ -3,6 +3,7 @@ module verifharness
 go 1.23
 
 require (
+	github.com/andybalholm/brotli v1.0.0
 	github.com/anishathalye/porcupine v1.3.0
 	github.com/baidu/go-lib v0.0.0-20200819072111-21df249f5e6a
 	github.com/bfenetworks/bfe v0.0.0
@@ -15,7 +16,6 @@ require (
 
 require (
 	github.com/abbot/go-http-auth v0.4.1-0.20181019201920-860ed7f246ff // indirect
-	github.com/andybalholm/brotli v1.0.0 // indirect
 	github.com/armon/go-radix v1.0.0 // indirect
 	github.com/asergeyev/nradix v0.0.0-20170505151046-3872ab85bb56 // indirect
 	github.com/aymerick/douceur v0.2.0 // indirect
